@@ -8,24 +8,28 @@ theorem Rc.setNode_same' {m : Mem} {C : List Nat} {i : Nat} {nd : NodeS} (nd' : 
     (h1 : nd'.recycled = nd.recycled) (h2 : nd'.origin = nd.origin) (h3 : nd'.refer = nd.refer) (h4 : nd'.block = nd.block)
     (h5 : nd'.unmanaged = nd.unmanaged) : Rc (m.setNode i nd') C := h.setNode_same hn h1 h2 h3 h4 h5
 
-theorem Rc.emit {m : Mem} {C : List Nat} (h : Rc m C) (e : Ev) : Rc (m.emit e) C := h.of_nodes_eq rfl
-theorem Rc.endViews {m : Mem} {C : List Nat} (h : Rc m C) (o : Nat) : Rc (m.endViews o) C := h.of_nodes_eq rfl
+theorem Rc.emit {m : Mem} {C : List Nat} (h : Rc m C) (e : Ev) : Rc (m.emit e) C := h.of_nodes_eq rfl (Ext.of_blocks_eq rfl)
+theorem Rc.endViews {m : Mem} {C : List Nat} (h : Rc m C) (o : Nat) : Rc (m.endViews o) C := h.of_nodes_eq rfl (Ext.of_blocks_eq rfl)
 theorem addView_nodes (m : Mem) (blk : Option Nat) (lo hi o : Nat) (p : Bool) : (m.addView blk lo hi o p).nodes = m.nodes := by
   unfold Mem.addView; split
   · rfl
   · split <;> rfl
 theorem Rc.addView {m : Mem} {C : List Nat} (h : Rc m C) (blk : Option Nat) (lo hi o : Nat) (p : Bool) :
-    Rc (m.addView blk lo hi o p) C := h.of_nodes_eq (addView_nodes _ _ _ _ _ _)
+    Rc (m.addView blk lo hi o p) C := h.of_nodes_eq (addView_nodes _ _ _ _ _ _) (Ext.of_blocks_eq (addView_blocks _ _ _ _ _ _))
 theorem Rc.allocBlock {m : Mem} {C : List Nat} (h : Rc m C) (k : Kind) (c : Nat) : Rc (m.allocBlock k c).1 C :=
-  h.of_nodes_eq (allocBlock_nodes m k c)
+  h.of_nodes_eq (allocBlock_nodes m k c) (allocBlock_ext m k c)
 theorem Rc.mallocMem {cfg : Cfg} {m : Mem} {C : List Nat} (h : Rc m C) (c : Nat) : Rc (m.mallocMem cfg c).1 C :=
-  h.of_nodes_eq (mallocMem_nodes cfg m c)
+  h.of_nodes_eq (mallocMem_nodes cfg m c) (mallocMem_ext cfg m c)
 theorem Rc.freeMem {cfg : Cfg} {m : Mem} {C : List Nat} (h : Rc m C) (blk : Option Nat) (c : Nat) : Rc (m.freeMem cfg blk c) C :=
-  h.of_nodes_eq (freeMem_nodes cfg m blk c)
+  h.of_nodes_eq (freeMem_nodes cfg m blk c) (freeMem_ext cfg m blk c)
 
 theorem freeCaches_nodes (cfg : Cfg) : ∀ (l : List Nat) (m : Mem), (freeCaches cfg m l).nodes = m.nodes
   | [], _ => rfl
   | blk :: rest, m => by unfold freeCaches; rw [freeCaches_nodes cfg rest, freeMem_nodes]
+
+theorem freeCaches_ext (cfg : Cfg) : ∀ (l : List Nat) (m : Mem), Ext m (freeCaches cfg m l)
+  | [], m => Ext.refl m
+  | blk :: rest, m => by unfold freeCaches; exact (freeMem_ext _ _ _ _).trans (freeCaches_ext cfg rest _)
 
 theorem onReadSuffix_rc {m m' : Mem} {b b' : Buf} {C : List Nat} {loop : List (Nat × NodeS) → Option (List (Nat × NodeS) × Nat)}
     (hl : ∀ l l' k, loop l = some (l', k) → SzL l l') (h : Rc m C) (hr : onReadSuffix m b loop = some (m', b')) :
@@ -221,8 +225,8 @@ theorem releaseCore_rc {cfg : Cfg} {m m' : Mem} {b b' : Buf} {R : List Nat} (h :
           have h1 := releaseAll_rc _ h0 hra
           simp only
           split
-          · exact (h1.of_nodes_eq (freeCaches_nodes cfg _ _)).freeMem _ _
-          · exact h1.of_nodes_eq (freeCaches_nodes cfg _ _)
+          · exact (h1.of_nodes_eq (freeCaches_nodes cfg _ _) (freeCaches_ext cfg _ _)).freeMem _ _
+          · exact h1.of_nodes_eq (freeCaches_nodes cfg _ _) (freeCaches_ext cfg _ _)
 
 theorem release_rc {cfg : Cfg} {m m' : Mem} {id : Nat} {b b' : Buf} {R : List Nat} (h : Rc m (b.chain ++ R))
     (hr : release cfg m id b = some (m', b')) : Rc m' (b'.chain ++ R) := by
